@@ -232,7 +232,7 @@ func BuildCfgRouter(tb *Table, cfg RouterCfg) *rux.Router {
 }
 
 func runC06(e *Env) {
-	e.Rule = "route tables (1..8 routes, skewed method subsets, optional '/*' route for all or some methods) x generated option sets {HandleMethodNotAllowed, HandleFallbackRoute, StrictLastSlash, caching, InterceptAll(p) in 4 spellings} x custom/default NotFound/NotAllowed handlers; probes = 9 methods x instantiations/mutations/trailing-slash variants/'/*'; observed through Match (route, allowed set) and ServeHTTP (status, Allow header, body, CTXAllowedMethods). Oracle: the documented resolution order on top of the AST reference matcher. Non-trivial: resolved by a fallback stage (HEAD->GET, '/*', 405) or >= 2 stages applicable; distinct by (table, options, method, path). Probes also use two request methods outside the nine (PURGE, LINK). Half of the routers carry 1..4 global middleware (one Use call each); a quarter of their probes are sent once more while a second request for another method/path is resolved by the same router inside one of these middleware - both outcomes must be the model's."
+	e.Rule = "route tables (1..8 routes, skewed method subsets, optional '/*' route for all or some methods) x generated option sets {HandleMethodNotAllowed, HandleFallbackRoute, StrictLastSlash, caching, InterceptAll(p) in 4 spellings} x custom/default NotFound/NotAllowed handlers; probes = 9 methods x instantiations/mutations/trailing-slash variants/'/*'; observed through Match (route, allowed set) and ServeHTTP (status, Allow header, body, CTXAllowedMethods). Oracle: the documented resolution order on top of the AST reference matcher. Non-trivial: resolved by a fallback stage (HEAD->GET, '/*', 405) or >= 2 stages applicable; distinct by (table, options, method, path). Probes also use two request methods outside the nine (PURGE, LINK) and, through QuickMatch and ServeHTTP, method tokens that are not upper case (get, Post, head ...: other methods, resolved like PURGE). Half of the routers carry 1..4 global middleware (one Use call each); a quarter of their probes are sent once more while a second request for another method/path is resolved by the same router inside one of these middleware - both outcomes must be the model's."
 	e.Assumptions = []string{
 		"the allowed set of the statement is the set of other methods under which the path matches directly (no HEAD->GET, no '/*')",
 		"only the literal route '/*' is a fallback route",
@@ -289,6 +289,31 @@ func c06Case(t *T) {
 			paths = append(paths, probe.Path+"/")
 		}
 		for _, path := range paths {
+			// method tokens are case-sensitive: "get" is not GET. The dispatcher (ServeHTTP, QuickMatch) resolves
+			// such a request like any other method without routes (Match is the helper that upper-cases first)
+			if chance(r, 1, 3) {
+				lm := pick(r, []string{"get", "Post", "head", "delete", "oPTIONS", "put", "Head"})
+				if want, ok := refResolve(tb, cfg, lm, path); ok {
+					t.Count("probes.method_token_not_upper_case", 1)
+					note := func() { failing = append(failing, lm+" "+path) }
+					qroute, _, qalm := router.QuickMatch(lm, path)
+					got := -1
+					if qroute != nil {
+						got = routeIndex(tb, qroute.Name())
+					}
+					galm := append([]string{}, qalm...)
+					sort.Strings(galm)
+					if got != want.Route || strings.Join(galm, ",") != strings.Join(want.Allowed, ",") {
+						note()
+						t.Fail("quickmatch-stage-"+want.Stage, "QuickMatch(%s %q) [%v]: documented order resolves at stage %q to %s allowed %v, observed route %s allowed %v", lm, path, cfg.Describe(), want.Stage, rdesc(tb, want.Route), want.Allowed, rdesc(tb, got), galm)
+					} else if rec, pv, panicked := Serve(router, NewReq(lm, path)); panicked {
+						note()
+						t.Fail("servehttp-panic", "ServeHTTP(%s %q) [%v] panicked: %v", lm, path, cfg.Describe(), pv)
+					} else {
+						c06CheckServe(t, tb, cfg, want, lm, path, rec, "", note)
+					}
+				}
+			}
 			for _, method := range append(append([]string{}, AllMethods...), "PURGE", "LINK") {
 				want, ok := refResolve(tb, cfg, method, path)
 				if !ok {
